@@ -207,6 +207,25 @@ func contractMentions(c *FuncContract, id string) bool {
 			return true
 		}
 	}
+	for _, a := range c.assertsAfter {
+		if hasProp(a.cl.props, id) {
+			return true
+		}
+	}
+	for _, cls := range c.invs {
+		for _, cl := range cls {
+			if hasProp(cl.props, id) {
+				return true
+			}
+		}
+	}
+	for _, cb := range c.callbacks {
+		for _, cl := range cb.invs {
+			if hasProp(cl.props, id) {
+				return true
+			}
+		}
+	}
 	return false
 }
 
